@@ -100,6 +100,28 @@ func hostilePayload(t *rapid.T, typ int32, w *World) ctypes.ITrxPayload {
 		}
 		return &ctypes.TrxPayloadVoting{TxHash: id, Choice: pick(t, []int32{0, 1, 2, -1, -2, 100, math.MaxInt32, math.MinInt32}, "choice")}
 	case ctypes.TRX_CONTRACT:
+		switch unif(t, 10, "contractData") {
+		case 0, 1, 2:
+			// a generated program (conditional reverts/returns with honest and hostile ABI data, nested calls, creates, self-destructs)
+			prog := genProgram(t)
+			if pct(t, 60, "hostileReturnData") {
+				// what a contract hands back is input too: a branch that reverts/returns with ABI-looking data
+				st := &Stmt{K: pick(t, []string{"revertdata", "revertdata", "returndata"}, "dataKind"), Cond: unif(t, 5, "dataCond"), N: unif(t, len(abiDataTemplates), "dataTpl")}
+				prog.Stmts = append([]*Stmt{st}, prog.Stmts...)
+			}
+			return &ctypes.TrxPayloadContract{Data: prog.deployCode()}
+		case 3:
+			// init code that itself reverts with such data
+			p := &Program{Stmts: []*Stmt{{K: "revertdata", Cond: -1, N: unif(t, len(abiDataTemplates), "initTpl")}}}
+			return &ctypes.TrxPayloadContract{Data: p.runtime()}
+		case 4, 5, 6:
+			// calldata for a deployed program: selector word + argument words
+			cd := word([]byte{byte(unif(t, 5, "sel"))})
+			for i := 0; i < 3; i++ {
+				cd = append(cd, word(rapid.SliceOfN(rapid.Byte(), 20, 20).Draw(t, "argWord"))...)
+			}
+			return &ctypes.TrxPayloadContract{Data: cd}
+		}
 		return &ctypes.TrxPayloadContract{Data: rapid.SliceOfN(rapid.Byte(), 0, 120).Draw(t, "code")}
 	case ctypes.TRX_SETDOC:
 		return &ctypes.TrxPayloadSetDoc{Name: string(make([]byte, pick(t, []int{0, 1, 2048, 2049, 5000}, "nameLen"))), URL: string(make([]byte, pick(t, []int{0, 1, 2048, 2049, 5000}, "urlLen")))}
@@ -130,9 +152,9 @@ func hostileTx(t *rapid.T, w *World, actors []*Actor) ([]byte, string) {
 		tx.To = from.Addr
 	case 2:
 		tx.To = hostileBytes(t, []int{0, 1, 19, 21, 32, 40}, "oddTo")
-	case 3:
+	case 3, 4:
 		if ks := sortedKeys(w.Contracts); len(ks) > 0 {
-			tx.To = unhx(ks[0])
+			tx.To = unhx(pick(t, ks, "toContract"))
 			break
 		}
 		fallthrough
@@ -145,7 +167,19 @@ func hostileTx(t *rapid.T, w *World, actors []*Actor) ([]byte, string) {
 		}
 	}
 	if typ == ctypes.TRX_CONTRACT || plType == ctypes.TRX_CONTRACT {
-		tx.Gas = pick(t, []uint64{0, 20999, 21000, 53000, 100000, 1000000, 30000000}, "cgas")
+		tx.Gas = pick(t, []uint64{0, 20999, 21000, 53000, 100000, 300000, 1000000, 1000000, 30000000}, "cgas")
+	}
+	if ks := sortedKeys(w.Contracts); typ == ctypes.TRX_CONTRACT && plType == typ && len(ks) > 0 && pct(t, 55, "callDeployed") {
+		// a call of something deployed earlier in this history (possibly a hostile program), mostly with well-formed calldata
+		tx.To = unhx(pick(t, ks, "deployed"))
+		if pct(t, 75, "wellFormedCalldata") {
+			cd := word([]byte{byte(unif(t, 5, "callSel"))})
+			for i := 0; i < 3; i++ {
+				cd = append(cd, word(pick(t, actors, "callArg").Addr)...)
+			}
+			tx.Payload = &ctypes.TrxPayloadContract{Data: cd}
+		}
+		tx.Gas = pick(t, []uint64{100000, 300000, 1000000, 1000000, 21000}, "callGas")
 	}
 	if pct(t, 30, "hostileAmt") || typ == ctypes.TRX_TRANSFER || typ == ctypes.TRX_STAKING {
 		tx.Amount = hostileAmount(t, "amount")
@@ -207,7 +241,10 @@ func hostileQuery(t *rapid.T, w *World, actors []*Actor) Injected {
 	case 4: // vm_call shaped: from(20) to(20) calldata
 		q.Data = append(append(append([]byte{}, pick(t, actors, "vmFrom").Addr...), pick(t, actors, "vmTo").Addr...), rapid.SliceOfN(rapid.Byte(), 0, 40).Draw(t, "calldata")...)
 		if ks := sortedKeys(w.Contracts); len(ks) > 0 && pct(t, 70, "vmToContract") {
-			copy(q.Data[20:40], unhx(ks[0]))
+			copy(q.Data[20:40], unhx(pick(t, ks, "vmContract")))
+			if pct(t, 60, "vmSelector") {
+				q.Data = append(q.Data[:40], word([]byte{byte(unif(t, 5, "vmSel"))})...)
+			}
 		}
 	case 5:
 		q.Data = rapid.SliceOfN(rapid.Byte(), 0, 80).Draw(t, "anyData")
